@@ -599,10 +599,13 @@ def _run_dataflow(spec, leaf_assign=False):
             if gk != ek:
                 if gk[0] == 'asg' and ek[0] == 'asg' and gk[1] == ek[1] and gk[1] == rn:
                     # compare new expression numerically (folding may differ syntactically)
-                    a = ev(sympy.sympify(res[got_keys.index(gk)].expression._sympy_()), env)
-                    b = ast_eval(new_ast, env)
-                    if close(a, b):
-                        continue
+                    try:
+                        a = ev(sympy.sympify(res[got_keys.index(gk)].expression._sympy_()), env)
+                        b = ast_eval(new_ast, env)
+                        if close(a, b):
+                            continue
+                    except (Undefined, EvalError):
+                        pass  # not the new expression (it only reads leaves): content mismatch
                 raise Violation('reassign:content', observed=gk, expected=ek, detail=f'{rn} in {p.render()}')
 
     # --- subs (renaming) ---------------------------------------------------------------------
